@@ -1913,6 +1913,25 @@ Proof.
   - apply IHF. intros a b Ha. apply H. cbn. auto.
 Qed.
 
+(* graph.py:512-514 as repaired: when every resource of the table already has a node,
+   the pass through wfnode2tfmnode is a sequence of memo hits and returns the dict the
+   pinned comprehension returns, leaving the graph as it is *)
+Lemma result_map_t_hit add_from pinned wf ex fuel st : forall tab m,
+  (forall r e, In (r, e) tab -> elookup r ex = Some e) ->
+  result_map tab (g_memo st) = Some m ->
+  result_map_t add_from pinned wf ex fuel tab st = Some (m, st).
+Proof.
+  induction tab as [|[r e] tab IH]; intros m Hl; cbn [result_map result_map_t].
+  - intros [= <-]. reflexivity.
+  - destruct (memo_find (key_of e) (g_memo st)) as [n|] eqn:En; [|discriminate].
+    destruct (result_map tab (g_memo st)) as [l|] eqn:El; [|discriminate].
+    intros [= <-].
+    assert (Hw : w2t add_from pinned wf ex fuel r st = Some (n, st)).
+    { destruct fuel; cbn [w2t]; rewrite (Hl r e (or_introl eq_refl)), En; reflexivity. }
+    rewrite Hw. rewrite (IH l); [reflexivity | | reflexivity].
+    intros r' e' Hin. apply Hl. cbn. auto.
+Qed.
+
 Theorem add_workflow_plugged add_from add_from_r :
   add_from_ok add_from -> add_from_ok add_from_r ->
   forall pt wf, wf_okb wf = true ->
@@ -2013,7 +2032,9 @@ Proof.
     destruct (Hlook _ _ _ r W3 HT) as [e' [n [He' Hn]]].
     rewrite (In_elookup r e ex X0 Hin) in He'. injection He' as <-. eauto. }
   unfold add_workflow. fold srcs. fold E0. rewrite Htg, Ew. fold ex. rewrite Et, Ei. fold srcs.
-  rewrite El, Em.
+  rewrite El.
+  rewrite (result_map_t_hit add_from false wf ex (wf_fuel wf) st3 ex m
+             (fun r e Hin => In_elookup r e ex X0 Hin) Em).
   set (res := mkRes (g_tr st3) ins res0 m).
   assert (Hndm : NoDup (map fst m)) by (rewrite Hmf; exact X0).
   assert (Hrho : forall r e n, elookup r ex = Some e -> memo_find (key_of e) (g_memo st3) = Some n ->
